@@ -112,6 +112,22 @@ func (i *interpreter) renderArg(fr *frame, verb byte, a value) []value {
 				return []value{valueOf(i.eng.st.Extract(x.t, 7, 0), types.Uint8)}
 			}
 		}
+		if verb == 'x' {
+			// a symbolic integer in hexadecimal: every digit is rendered (with
+			// leading zeros, unlike the real fmt: the length of the real rendering
+			// depends on the value) - recorded as an abstraction
+			st := i.eng.st
+			i.eng.note("fmt: %x of a symbolic integer rendered with leading zeros")
+			w := x.t.W
+			var out []value
+			for sh := w - 4; sh >= 0; sh -= 4 {
+				d := st.Extract(x.t, sh+3, sh)
+				d8 := st.ZExt(d, 8)
+				ch := st.Ite(st.Cmp(OpULt, d8, st.Const(8, 10)), st.Bin(OpAdd, d8, st.Const(8, '0')), st.Bin(OpAdd, d8, st.Const(8, 'a'-10)))
+				out = append(out, valueOf(ch, types.Uint8))
+			}
+			return out
+		}
 		// a symbolic number: one placeholder byte per decimal digit is not
 		// meaningful; keep a marker carrying the low byte for support tracking
 		return append(bytesOfString("<sym:"), valueOf(i.eng.st.Extract(x.t, 7, 0), types.Uint8), uint8('>'))
